@@ -98,6 +98,44 @@ def fmt_diff(diff, precision, suffix):
     return {s, "+" + s}, "?"
 
 
+DISK_STATS = [("inverted index", "disk_usage_inverted_index"), ("stored fields", "disk_usage_stored_fields"), ("doc values", "disk_usage_doc_values"),
+              ("points", "disk_usage_points"), ("norms", "disk_usage_norms"), ("term vectors", "disk_usage_term_vectors"), ("total", "disk_usage_total")]
+
+
+def disk_rows(b, c):
+    """per-field disk usage: one row per (index, field, statistic) for indices present in both races, fields known to either race's
+    totals, a missing statistic counts as 0, rows with 0 on both sides are left out; shown in the human unit of the smaller value"""
+    if not b.get("disk_usage_total") or not c.get("disk_usage_total"):
+        return []
+
+    def collate(d):
+        out = {}
+        for stat, key in DISK_STATS:
+            for fs in d.get(key) or []:
+                out.setdefault(fs["index"], {}).setdefault(fs["field"], {})[stat] = fs["value"]
+        return out
+
+    cb, cc = collate(b), collate(c)
+    fields = []
+    for d in (b, c):
+        for fs in d["disk_usage_total"]:
+            if (fs["index"], fs["field"]) not in fields:
+                fields.append((fs["index"], fs["field"]))
+    rows = []
+    for index, field in fields:
+        if index not in cb or index not in cc:
+            continue
+        for stat, _key in DISK_STATS:
+            vb = cb[index].get(field, {}).get(stat, 0)
+            vc = cc[index].get(field, {}).get(stat, 0)
+            if vb == 0 and vc == 0:
+                continue
+            m = abs(min(vb, vc))
+            unit, factor = ("GB", GB) if m * GB > 1.0 else ("MB", MB) if m * MB > 1.0 else ("kB", 1 / 1024.0) if m / 1024.0 > 1.0 else ("bytes", 1.0)
+            rows.append(dict(label=f"{index} {field} {stat}", task="", b=vb, c=vc, unit=unit, factor=factor, up=False))
+    return rows
+
+
 def expected_rows(b, c, show_processing=False):
     """list of dict(label, task, b, c, unit, factor, up)"""
     rows = []
@@ -121,6 +159,7 @@ def expected_rows(b, c, show_processing=False):
             for tc in c.get(key) or []:
                 if tb["id"] == tc["id"]:
                     rows.append(dict(label=label, task=tb["id"], b=tb["mean"], c=tc["mean"], unit=tb["unit"], factor=1.0, up=up))
+    rows.extend(disk_rows(b, c))
     btasks = {}
     for e in b.get("op_metrics", []):
         btasks.setdefault(e["task"], e)
@@ -253,8 +292,10 @@ def tables(b, c, show_processing):
     from esrally import metrics
 
     r = reporter(show_processing)
-    plain = r._metrics_table(metrics.GlobalStats(b), metrics.GlobalStats(c), plain=True)
-    rich = r._metrics_table(metrics.GlobalStats(b), metrics.GlobalStats(c), plain=False)
+    # the same reporter and the same two stats objects for both passes, plain first: exactly what ComparisonReporter.report() does
+    sb, sc_ = metrics.GlobalStats(b), metrics.GlobalStats(c)
+    plain = r._metrics_table(sb, sc_, plain=True)
+    rich = r._metrics_table(sb, sc_, plain=False)
     return plain, rich
 
 
@@ -314,8 +355,9 @@ def check_files(b, c, res):
             r = reporter(False, fmt, path)
             buf = io.StringIO()
             with contextlib.redirect_stdout(buf):
-                plain = r._metrics_table(metrics.GlobalStats(b), metrics.GlobalStats(c), plain=True)
-                rich = r._metrics_table(metrics.GlobalStats(b), metrics.GlobalStats(c), plain=False)
+                sb, sc_ = metrics.GlobalStats(b), metrics.GlobalStats(c)
+                plain = r._metrics_table(sb, sc_, plain=True)
+                rich = r._metrics_table(sb, sc_, plain=False)
                 r._write_report(plain, rich)
             console_text = ANSI.sub("", buf.getvalue())
             file_text = open(path, encoding="utf-8").read() if os.path.exists(path) else None
@@ -412,6 +454,32 @@ def family_cases():
                 yield f"{fam} bg={bg} b={vb} c={vc}", b, c
 
 
+DISK_V = [0, 1, 500, 2048, 3 * 1024**2, 5 * 1024**3, 5 * 1024**3 + 1]
+
+
+def disk_cases():
+    """per-field disk usage: field f1 with every pair of byte values (total and inverted index), a field only in the baseline, a field only
+    in the contender, an index only in one race; with and without the other families in the background"""
+    def usage(v, other_field, other_index):
+        d = {key: [] for _stat, key in DISK_STATS}
+        if v is not None:
+            d["disk_usage_total"] = [{"index": "idx", "field": "f1", "value": v}, {"index": "idx", "field": other_field, "value": 4096},
+                                     {"index": other_index, "field": "f1", "value": 77}]
+            d["disk_usage_inverted_index"] = [{"index": "idx", "field": "f1", "value": v // 2}]
+            d["disk_usage_doc_values"] = [{"index": "idx", "field": other_field, "value": 1024}]
+        return d
+
+    for bg in (False, True):
+        for vb, vc in itertools.product(DISK_V + [None], repeat=2):
+            if vb is None and vc is None:
+                continue
+            b = background(1.0) if bg else {}
+            c = background(2.0) if bg else {}
+            b.update(usage(vb, "only-baseline", "idx-b"))
+            c.update(usage(vc, "only-contender", "idx-c"))
+            yield f"disk bg={bg} b={vb} c={vc}", b, c
+
+
 TASKS = [("warmup-search", "search"), ("search", "search"), ("index", "bulk")]
 KEYSETS = [PERCENTILES, [50, 100], [50, 90, 99, 100], []]
 
@@ -449,7 +517,7 @@ def _shard(cases):
 
 
 def run(tier, seed):
-    cases = list(family_cases()) + list(task_cases(tier))
+    cases = list(family_cases()) + list(disk_cases()) + list(task_cases(tier))
     res = par.pmap(_shard, par.chunks(cases, par.NPROC * 4), seed=seed)
     res.extra["value_alphabet"] = V
     res.extra["pairs_of_results"] = len(cases)
